@@ -1508,17 +1508,31 @@ func (n *RootNode) Render(w io.Writer, ctx *RenderContext) error {
 	// Register the blocks of this template behind the definitions that came
 	// from the templates extending it: the chain of a block lists its
 	// definitions from the most derived template to the base layout
-	// (a block written inside another block of this template is a definition
-	// of this template as well: it overrides the definitions further up)
+	// (a block written inside another block of this template, or inside a
+	// condition, a loop, an apply or a spaceless section, is a definition of
+	// this template as well: it overrides the definitions further up)
 	var register func(nodes []Node)
 	register = func(nodes []Node) {
 		for _, child := range nodes {
-			if block, ok := child.(*BlockNode); ok {
+			switch node := child.(type) {
+			case *BlockNode:
 				if ctx.blockChain == nil {
 					ctx.blockChain = make(map[string][]blockDefinition)
 				}
-				ctx.blockChain[block.name] = append(ctx.blockChain[block.name], blockDefinition{block, ctx.lastLoadedTemplate})
-				register(block.body)
+				ctx.blockChain[node.name] = append(ctx.blockChain[node.name], blockDefinition{node, ctx.lastLoadedTemplate})
+				register(node.body)
+			case *IfNode:
+				for _, body := range node.bodies {
+					register(body)
+				}
+				register(node.elseBranch)
+			case *ForNode:
+				register(node.body)
+				register(node.elseBranch)
+			case *ApplyNode:
+				register(node.body)
+			case *SpacelessNode:
+				register(node.body)
 			}
 		}
 	}
